@@ -972,8 +972,10 @@ Error RALocalAllocator::alloc_instruction(InstNode* node) noexcept {
                   break;
                 }
 
+                // Prefer registers that are not occupied - each occupied register has to be spilled.
                 RAWorkReg* work_reg = consecutive_regs[i]->work_reg();
                 score += uint32_t(work_reg->home_reg_id() == consecutive_index);
+                score += uint32_t(!Support::bit_test(live_regs, consecutive_index)) * 2u;
               }
 
               if (score > best_score) {
@@ -991,6 +993,13 @@ Error RALocalAllocator::alloc_instruction(InstNode* node) noexcept {
             uint32_t consecutive_index = best_lead_reg + i;
             RATiedReg* tied_reg = consecutive_regs[i];
             tied_reg->set_out_id(consecutive_index);
+
+            // OUT registers are assigned unconditionally, so if the register is occupied it must be spilled first.
+            if (Support::bit_test(live_regs, consecutive_index)) {
+              RAWorkId spill_work_id = _cur_assignment.phys_to_work_id(group, consecutive_index);
+              ASMJIT_PROPAGATE(on_spill_reg(group, work_reg_by_id(spill_work_id), spill_work_id, consecutive_index));
+              live_regs &= ~Support::bit_mask<RegMask>(consecutive_index);
+            }
           }
         }
       }
